@@ -52,25 +52,51 @@ CHECKS = {
     "read_sound": "chk_read_sound",
     "read_cover": "chk_read_cover",
     "gt_sound0": "chk_gt_sound 0",
-    "gt_sound1": "chk_gt_sound 1",
+    "gt_sound1": "chk_gt_sound 1",          # only to classify a failure of gt_sound0 (0-based position column)
     "gt_cover0": "chk_gt_cover 0",
     "gt_cover1": "chk_gt_cover 1",
     "no_change": "chk_no_change",
     "rec_sound": "chk_rec_sound",
+    "rec_genuine": "chk_rec_genuine",
+    "rec_complete": "chk_rec_complete",
     "rec_cover": "chk_rec_cover",
     "l2_reads": "l2_reads",
     "l2_vcf": "l2_vcf",
-    "l2_gts_call0": "l2_gts PerCall ZeroBased",
-    "l2_gts_call1": "l2_gts PerCall OneBased",
-    "l2_gts_run0": "l2_gts PerRun ZeroBased",
-    "l2_gts_run1": "l2_gts PerRun OneBased",
-    "l2_recs_call": "l2_recs PerCall Strict",
-    "l2_recs_run": "l2_recs PerRun Strict",
-    "l2_recs_call_e": "l2_recs PerCall EmptyOk",
-    "l2_recs_run_e": "l2_recs PerRun EmptyOk",
-    "l2_inst_recs": "l2_inst_recs Strict",
-    "l2_inst_recs_e": "l2_inst_recs EmptyOk",
+    "l2_gts": "l2_gts",
+    "l2_recs": "l2_recs",
+    "l2_inst_recs": "l2_inst_recs",
 }
+
+
+def interleaving(ins, entries):
+    """(instance has interleaved phase sets, number of its recombination entries located after a variant of
+    another phase set that lies inside their own set's span)"""
+    comps = sorted(ins["components"])
+    inter = False
+    first_foreign = {}
+    for b in {c for _, c in comps}:
+        mine = [p for p, c in comps if c == b]
+        foreign = [p for p, c in comps if c != b and mine[0] < p < mine[-1]]
+        if foreign:
+            inter = True
+            first_foreign[b] = min(foreign)
+    after = 0
+    cd = dict(comps)
+    for e in entries or []:
+        b = cd.get(e[2] - 1)
+        if b in first_foreign and e[2] - 1 > first_foreign[b]:
+            after += 1
+    return inter, after
+
+
+def multi_change_records(in_vcf, out_vcf):
+    """number of records in which the genotypes of two or more samples differ between input and output VCF"""
+    n = 0
+    for c in in_vcf[1]:
+        for a, b in zip(in_vcf[2][c], out_vcf[2].get(c, [])):
+            d = sum(1 for (s, g, _), (s2, g2, _) in zip(a["calls"], b["calls"]) if sorted(g) != sorted(g2))
+            n += d >= 2
+    return n
 
 
 def execute(ctx, spec, opts_list):
@@ -92,10 +118,30 @@ def execute(ctx, spec, opts_list):
             inst_recs = [G.real_inst_recs(ins, wd, intern, f"{tag}.{j}") for j, ins in enumerate(insts)]
             t = G.case_term(opt, in_vcf, out_vcf, insts, files, intern, sc.chroms, inst_recs)
             nent = {k: (None if v is None else len([x for x in v if x != "H"])) for k, v in files.items()}
+            il = [interleaving(ins, es) for ins, es in zip(insts, inst_recs)]
+            fams = {}
+            for ins in insts:
+                fams.setdefault(ins["chromosome"], []).append(len(ins["family"]))
             meta = {"instances": len(insts), "entries": nent,
                     "calls_with_events": sum(1 for es in inst_recs if es),
                     "trios": sum(len(i["trios"]) for i in insts), "reads": sum(len(i["reads"]) for i in insts),
-                    "multi_block_trio_instances": sum(1 for i in insts if i["trios"] and len({c for _, c in i["components"]}) > 1)}
+                    "multi_block_trio_instances": sum(1 for i in insts if i["trios"] and len({c for _, c in i["components"]}) > 1),
+                    "interleaved_trio_instances": sum(1 for (a, _), i in zip(il, insts) if a and i["trios"]),
+                    "rec_entries_after_interleaving": sum(b for _, b in il),
+                    "families_per_chromosome": max([len(v) for v in fams.values()] or [0]),
+                    "single_sample_families": sum(1 for v in fams.values() for x in v if x == 1),
+                    "multi_change_records": multi_change_records(in_vcf, out_vcf),
+                    "source_ids": len({r["source_id"] for i in insts for r in i["reads"]}),
+                    "empty_instances": sum(1 for i in insts if not i["accessible_positions"]),
+                    "readless_instances": sum(1 for i in insts if not i["reads"])}
+            # (only to name a failure) does a list hold nothing but the entries of the last call?
+            gl = [e for e in (files["gts"] or []) if e != "H"]
+            last_chrom = insts[-1]["chromosome"] if insts else None
+            meta["gts_only_last_chromosome"] = bool(insts) and len({i["chromosome"] for i in insts}) > 1 and \
+                all(e[1] == intern(last_chrom) for e in gl)
+            rl = [e for e in (files["recs"] or []) if e != "H"]
+            meta["recs_only_last_instance"] = len(insts) > 1 and rl == list(inst_recs[-1] or []) and \
+                any(es for es in inst_recs[:-1])
             out.append((replay, t, meta))
         except G.Unparseable as e:
             out.append((replay, None, ("phase:list-file-unparseable", str(e))))
@@ -109,6 +155,9 @@ def execute(ctx, spec, opts_list):
             except Exception:
                 t = None
             out.append((replay, None, ("phase:run-failed", str(e), t, e.stderr)))
+        except Exception as e:     # anything else the drivers hit on this input is reported with the input
+            import traceback
+            out.append((replay, None, ("phase:harness-exception", traceback.format_exc()[-1500:])))
     return out
 
 
@@ -116,20 +165,30 @@ def plan(ctx):
     """[(spec, [opt, ...])]: the 32 combinations (3 lists x distrust x ped) are all covered, then random ones."""
     rng = ctx.rng
     grid = [((r, g, c), d, p) for r in (1, 0) for g in (1, 0) for c in (1, 0) for d in (1, 0) for p in (1, 0)]
-    # corpus: the shape of F9 (two chromosomes, one trio, cheap recombination, all lists) and its --chromosome runs
     jobs = []
-    f9 = G.make_spec(rng, {"structure": "trio_single_first", "nchrom": 2})
-    f9.update(recomb_prob=0.3, odd_records=False)
+    # corpus: the shape of F9 (two chromosomes, one trio, cheap recombination, all lists) and its --chromosome run
+    f9 = G.make_spec(rng, {"structure": "trio_single_first", "nchrom": 2, "recomb_prob": 0.3, "odd_records": False,
+                           "names": "role", "missing_gt": False, "prephased": False})
     o = G.make_options(rng, f9, (1, 1, 1), 1, 1)
-    o.update(recombrate=1000000, genmap=False, chromosomes=None, include_homozygous=True)
-    o1 = dict(o, chromosomes=[0])
-    jobs.append((f9, [o, o1]))
-    # corpus: a chromosome without anything to phase (third finding: --recombination-list crash)
-    hom = G.make_spec(rng, {"structure": "trio_single", "nchrom": 2})
-    hom.update(all_hom_chrom=0, odd_records=False)
+    o.update(recombrate=1000000, genmap=False, chromosomes=None, include_homozygous=True, samples=None,
+             use_ped_samples=False, tag_hp=False, only_snvs=False, algorithm="whatshap", max_coverage=15)
+    jobs.append((f9, [o, dict(o, chromosomes=[0])]))
+    # corpus: a chromosome without anything to phase (the fixed --recombination-list crash)
+    hom = G.make_spec(rng, {"structure": "trio_single", "nchrom": 2, "all_hom_chrom": 0, "odd_records": False})
     oh = G.make_options(rng, hom, (1, 1, 1), 0, 1)
-    oh.update(genmap=False, chromosomes=None)
+    oh.update(genmap=False, chromosomes=None, samples=None, use_ped_samples=False)
     jobs.append((hom, [oh, dict(oh, recs=False)]))
+    # targeted stream: interleaved / nested phase sets in one family with a recombination after them
+    for _ in range(ctx.n(8, 40)):
+        sp = G.make_spec(rng, {"structure": rng.choice(["quartet", "quartet_single"]), "interleave": True,
+                               "nchrom": rng.choice([1, 2, 2]), "gap": False, "missing_gt": False,
+                               "kinds": ["snv"], "prephased": False})
+        opts = []
+        for d in (0, rng.choice([0, 1])):
+            oi = G.make_options(rng, sp, (1, rng.choice([0, 1]), 1), d, 1)
+            oi.update(recombrate=rng.choice([1.26, 10000, 1000000]), use_ped_samples=False, only_snvs=False)
+            opts.append(oi)
+        jobs.append((sp, opts))
     nscen = ctx.n(32, 300)
     per = ctx.n(3, 4)
     k = 0
@@ -156,78 +215,82 @@ def evaluate(ctx, results):
     crash_terms = [(r, m) for r, m in failed if len(m) > 2 and m[2] is not None]
     crash_verdict = {}
     if crash_terms:
-        fl, errors = eval_checks("C20crash", HEADER, {"model_crashes": "model_crashes", "empty": "crash_is_empty_instance"},
+        fl, errors = eval_checks("C20crash", HEADER, {"model_crashes": "model_crashes"},
                                  [m[2] for _, m in crash_terms], shard=4, timeout=900)
         if errors:
             raise RuntimeError("coq evaluation failed: " + errors[0][1])
         for j, (r, m) in enumerate(crash_terms):
-            crash_verdict[id(m)] = (j not in fl["model_crashes"], j not in fl["empty"])
+            crash_verdict[id(m)] = j not in fl["model_crashes"]
     for r, m in failed:
         ctx.count(("fail", repr(r)), nontrivial=False)
         ctx.tally("runs_that_crashed")
-        model_crashes, empty = crash_verdict.get(id(m), (False, False))
-        if (m[0] == "phase:run-failed" and model_crashes and empty and "find_recombination" in m[3]
-                and "AssertionError" in m[3]):
-            ctx.violation("phase:recombination-list-crash-no-accessible-variants",
-                          "whatshap phase --ped --recombination-list dies with AssertionError in find_recombination when a "
-                          "(chromosome, family) has no accessible variant (recombination cost vector [0] for an empty position list); "
-                          f"no list is complete. spec={r['spec']} options={r['opt']}", r)
-        else:
-            ctx.violation(m[0], m[1][:1500], r)
-            if m[0] == "phase:run-failed" and not model_crashes:
-                ctx.disagreements_checked += 1
-                ctx.l2_disagreement("AuxReports.run = None iff whatshap phase crashes (L2)", [{"replay": r}])
+        sig = m[0]
+        if sig == "phase:run-failed" and "find_recombination" in m[3] and "AssertionError" in m[3]:
+            sig = "phase:recombination-list-crash-no-accessible-variants"
+        ctx.violation(sig, f"{m[1][:1500]} spec={r['spec']} options={r['opt']}", r)
+        if m[0] == "phase:run-failed" and not crash_verdict.get(id(m), False):
+            ctx.disagreements_checked += 1
+            ctx.l2_disagreement("AuxReports.run_phase = None iff whatshap phase crashes (L2)", [{"replay": r}])
     if not ok:
         return
     failing, errors = eval_checks("C20", HEADER, CHECKS, [t for _, t, _ in ok], shard=4, timeout=900)
     if errors:
         raise RuntimeError("coq evaluation failed: " + errors[0][1])
     bad = {lab: set(ix) for lab, ix in failing.items()}
-    n = len(ok)
 
     def holds(lab, i):
         return i not in bad[lab]
 
-    # which writer rule does the implementation follow? (decided over all cases of this run)
-    gts_req = [i for i in range(n) if ok[i][0]["opt"]["gts"]]
-    recs_req = [i for i in range(n) if ok[i][0]["opt"]["recs"]]
-    gt_variants = ["l2_gts_call0", "l2_gts_run0", "l2_gts_call1", "l2_gts_run1"]
-    gt_rule = next((v for v in gt_variants if all(holds(v, i) for i in gts_req)), None)
-    # (writer rule, rule for a family without accessible position); the per-call function is compared on every case
-    rec_variants = [("l2_recs_call", "l2_inst_recs"), ("l2_recs_run", "l2_inst_recs"),
-                    ("l2_recs_call_e", "l2_inst_recs_e"), ("l2_recs_run_e", "l2_inst_recs_e")]
-    rec_pair = next(((v, w) for v, w in rec_variants
-                     if all(holds(v, i) for i in recs_req) and all(holds(w, i) for i in range(n))), None)
-    rec_rule, inst_rule = rec_pair if rec_pair else (None, None)
-    names = {"l2_gts_call0": "per call, 0-based position (current code)", "l2_gts_run0": "per run, 0-based position",
-             "l2_gts_call1": "per call, VCF position", "l2_gts_run1": "per run, VCF position (repaired)",
-             "l2_recs_call": "per call, assertion on families without accessible variant (current code)",
-             "l2_recs_run": "per run, assertion on families without accessible variant",
-             "l2_recs_call_e": "per call, no event for families without accessible variant",
-             "l2_recs_run_e": "per run, no event for families without accessible variant (repaired)",
-             None: "none of the modelled rules"}
-    ctx.extra["changed_genotype_list_rule_followed"] = names[gt_rule]
-    ctx.extra["recombination_list_rule_followed"] = names[rec_rule]
-
     for i, (rp, t, meta) in enumerate(ok):
-        opt = rp["opt"]
+        opt, spec = rp["opt"], rp["spec"]
         nontrivial = meta["instances"] >= 2 and (opt["reads"] or opt["gts"] or opt["recs"])
-        ctx.count((rp["spec"]["seed"], repr(sorted(opt.items()))), nontrivial=nontrivial)
+        ctx.count((spec["seed"], repr(sorted(opt.items()))), nontrivial=nontrivial)
         ctx.tally("runs")
         ctx.tally("instances", meta["instances"])
         ctx.tally("selected_reads", meta["reads"])
         ctx.tally(f"lists.{int(opt['reads'])}{int(opt['gts'])}{int(opt['recs'])}.distrust{int(opt['distrust'])}.ped{int(opt['ped'])}")
-        ctx.tally("structure." + rp["spec"]["structure"])
-        if opt["genmap"]:
-            ctx.tally("genmap_runs")
+        ctx.tally("structure." + spec["structure"])
+        ctx.tally("names." + spec.get("names", "role"))
+        ctx.tally(f"families_per_chromosome.{min(meta['families_per_chromosome'], 4)}{'+' if meta['families_per_chromosome'] >= 4 else ''}")
+        if not opt["ped"] and meta["families_per_chromosome"] >= 2:
+            ctx.tally("runs_without_ped_with_several_samples")
+        if opt["ped"] and meta["families_per_chromosome"] >= 2:
+            ctx.tally("runs_with_ped_and_several_families")
+        for key in ("genmap", "tag_hp", "only_snvs", "use_ped_samples", "no_genetic_haplotyping", "include_homozygous"):
+            if opt.get(key):
+                ctx.tally("option." + key)
+        if opt.get("samples") is not None:
+            ctx.tally("option.sample_subset")
         if opt["chromosomes"] is not None:
-            ctx.tally("runs_with_chromosome_option")
+            ctx.tally("option.chromosome_subset")
+        ctx.tally("option.algorithm." + opt.get("algorithm", "whatshap"))
+        ctx.tally(f"option.max_coverage.{opt.get('max_coverage', 15)}")
+        ctx.tally(f"option.recombrate.{opt['recombrate']}" if opt["ped"] and not opt["genmap"] else "option.recombrate.n/a")
+        for key in ("gl", "odd_records", "gap", "ped_shuffle", "ped_extra", "two_bams", "shared_read_names", "prephased",
+                    "missing_gt", "interleave"):
+            if spec.get(key):
+                ctx.tally("input." + key)
+        if spec.get("paired_fraction"):
+            ctx.tally("input.paired_reads")
+        if spec.get("all_hom_chrom") is not None:
+            ctx.tally("input.all_hom_chrom")
+        if len(spec["kinds"]) > 1:
+            ctx.tally("input.indels_mnps")
+        ctx.tally(f"input.nchrom.{spec['nchrom']}")
         for kname, v in meta["entries"].items():
             if v:
                 ctx.tally(f"entries.{kname}", v)
-        ctx.tally("instances_with_recombination_events", meta["calls_with_events"])
-        ctx.tally("trio_instances_with_several_phase_sets", meta["multi_block_trio_instances"])
-        desc = f"spec={rp['spec']} options={opt} (instances: {meta['instances']}, entries in files: {meta['entries']})"
+            elif v == 0:
+                ctx.tally(f"runs_with_header_only.{kname}")
+        for key in ("calls_with_events", "multi_block_trio_instances", "interleaved_trio_instances",
+                    "rec_entries_after_interleaving", "single_sample_families", "multi_change_records",
+                    "empty_instances", "readless_instances"):
+            ctx.tally(key, meta[key])
+        if meta["multi_change_records"] and opt["gts"]:
+            ctx.tally("runs_listing_multi_sample_changes")
+        if meta["source_ids"] > 1:
+            ctx.tally("runs_with_two_source_ids")
+        desc = f"spec={spec} options={opt} (instances: {meta['instances']}, entries in files: {meta['entries']})"
         # ---------------- L1
         if not holds("wf", i):
             ctx.violation("phase:trace-invariant", "traced run violates an assumed representation invariant: " + desc, rp)
@@ -249,12 +312,11 @@ def evaluate(ctx, results):
                 else:
                     ctx.violation("phase:changed-genotype-list-entry-not-a-diff",
                                   "a listed genotype change is not a difference between input and output VCF: " + desc, rp)
-            cover = "gt_cover1" if zero_based else "gt_cover0"
-            if not holds(cover, i):
-                if holds("l2_gts_call0", i) or holds("l2_gts_call1", i):
+            if not holds("gt_cover1" if zero_based else "gt_cover0", i):
+                if meta.get("gts_only_last_chromosome"):
                     ctx.violation("phase:changed-genotype-list-overwritten",
                                   "genotype differences between input and output VCF on an earlier chromosome are missing from the "
-                                  "changed-genotype list: the file is rewritten (mode 'w') for every chromosome: " + desc, rp)
+                                  "changed-genotype list, which only holds entries of the last processed chromosome: " + desc, rp)
                 else:
                     ctx.violation("phase:changed-genotype-list-incomplete",
                                   "a genotype difference between input and output VCF is missing from the changed-genotype list: " + desc, rp)
@@ -262,34 +324,38 @@ def evaluate(ctx, results):
             if not holds("rec_sound", i):
                 ctx.violation("phase:recombination-entry-outside-phase-set",
                               "a listed recombination does not lie between two variants of one phase set of its family: " + desc, rp)
-            if not holds("rec_cover", i):
-                if holds("l2_recs_call", i) or holds("l2_recs_call_e", i):
+            elif not holds("rec_genuine", i):
+                ctx.violation("phase:recombination-entry-fabricated",
+                              "a listed recombination is not a change of its family's transmission vector between neighbouring "
+                              "variants of one phase set (or its haplotype / cost columns are not those of that change): " + desc, rp)
+            if not holds("rec_complete", i):
+                if meta.get("recs_only_last_instance"):
                     ctx.violation("phase:recombination-list-overwritten",
-                                  "recombination events of an earlier (chromosome, family) are missing from the recombination list: "
-                                  "the file is rewritten (mode 'w') for every chromosome and family: " + desc, rp)
+                                  "recombination events of an earlier (chromosome, family) are missing from the recombination list, "
+                                  "which only holds the entries of the last one: " + desc, rp)
                 else:
-                    ctx.violation("phase:recombination-list-incomplete",
-                                  "recombination events of a processed (chromosome, family) are missing or extra in the recombination list: " + desc, rp)
+                    ctx.violation("phase:recombination-entry-missing",
+                                  "a change of the transmission vector between neighbouring variants of one phase set of a processed "
+                                  "(chromosome, family) is not listed: " + desc, rp)
+            elif not holds("rec_cover", i):
+                ctx.violation("phase:recombination-list-incomplete",
+                              "the recombination list is not the concatenation of what write_recombination_list gives for each processed (chromosome, family): " + desc, rp)
         if len(ctx.samples) < 3:
-            ctx.sample({"spec": rp["spec"], "options": opt, "meta": meta,
+            ctx.sample({"spec": spec, "options": opt, "meta": meta,
                         "failed_checks": sorted(lab for lab in CHECKS if not holds(lab, i))})
 
-    # ---------------- L2
-    def l2(label, idx, what):
-        cases = [{"replay": ok[i][0], "meta": ok[i][2]} for i in idx]
+    # ---------------- L2: exactly the model of the code as it is
+    def l2(label, what):
+        cases = [{"replay": ok[i][0], "meta": ok[i][2]} for i in sorted(bad[label])]
         if cases:
             ctx.disagreements_checked += len(cases)
             ctx.l2_disagreement(what, cases)
 
-    l2("l2_reads", sorted(bad["l2_reads"]), "AuxReports.run read list = --output-read-list file (L2)")
-    l2("l2_vcf", sorted(bad["l2_vcf"]), "AuxReports.write_records genotypes = output VCF genotypes (L2)")
-    if inst_rule is None:
-        l2("l2_inst_recs", sorted(bad["l2_inst_recs"] if bad["l2_inst_recs"] else bad["l2_inst_recs_e"]),
-           "AuxReports.inst_rec_entries = write_recombination_list on each traced instance (L2)")
-    if gt_rule is None:
-        l2("l2_gts", [i for i in gts_req if not holds("l2_gts_call0", i)], "AuxReports.run changed-genotype list = file under one writer rule (L2)")
-    if rec_rule is None:
-        l2("l2_recs", [i for i in recs_req if not holds("l2_recs_call", i)], "AuxReports.run recombination list = file under one writer rule (L2)")
+    l2("l2_reads", "AuxReports.run_phase read list = --output-read-list file (L2)")
+    l2("l2_vcf", "AuxReports.write_records genotypes = output VCF genotypes (L2)")
+    l2("l2_gts", "AuxReports.run_phase changed-genotype list = --changed-genotype-list file (L2)")
+    l2("l2_recs", "AuxReports.run_phase recombination list = --recombination-list file (L2)")
+    l2("l2_inst_recs", "AuxReports.inst_rec_entries = write_recombination_list on each traced instance (L2)")
 
 
 def run_jobs(ctx, jobs):
@@ -322,9 +388,7 @@ def run(ctx):
     evaluate(ctx, results)
     if ctx.l2 and not any(v["found_input"] for v in ctx.violations):
         # the model no longer describes the code: look for an input on which the property itself fails
-        rule = dict(ctx.extra)
         evaluate(ctx, run_jobs(ctx, search_jobs(ctx, ctx.n(16, 60))))
-        ctx.extra.update(rule)
         ctx.extra["search_after_l2_disagreement"] = True
 
 
